@@ -16,7 +16,12 @@ EXPLANATION = (
     "linked); the same for List::prepend; "
     "(C17.3) raw node pointers are dereferenced only in node_ptr::deref, Box::from_raw of a node appears only in Drop "
     "impls, and the Drop that frees belongs to the last owner (C07.1 rule); (C17.4) listfree iterators are lifetime-bound "
-    "to their list (compile-fail witness W1, thorough tier).  Ordering-operand table, ORDER with cycles, who-may-call.")
+    "to their list (compile-fail witness W1, thorough tier); (C17.5) the search skeleton shared by find_greater_or_equal, "
+    "find_greater_or_equal_and_pointers, find_less_than and find_last: the level starts at MAX_HEIGHT - 1, goes down one at a time and "
+    "only on the `level != 0` edge, an answer is produced only on the `level == 0` edge, the walk moves right only onto a non-null "
+    "node whose key is strictly before the target, every round re-reads get_next(x, level), the pointer-collecting variant "
+    "records (x, next) at every level before it leaves that level, and the iterator steps along level 0.  "
+    "Ordering-operand table, ORDER with cycles, who-may-call, GUARDED.")
 NOT_DECIDED = "that no insert is lost and iteration is ordered under every interleaving at the granularity of individual atomics"
 ASSUMPTIONS = ["the C++11/Rust memory model: Release store / Acquire load publication"]
 
@@ -30,6 +35,7 @@ def rules(ctx):
     c171(ctx)
     c172(ctx)
     c173(ctx)
+    c175(ctx)
     C07.c071(ctx)
 
 
@@ -244,3 +250,314 @@ def c173(ctx):
                       "%s frees a node outside a Drop impl" % sk, pt=pts[0])
         ctx.floor(R, crate + " free sites", len(fr), 1)
     ctx.floor(R, "functions with raw node derefs", n, 2)
+
+
+# ------------------------------------------------------------------------------------------------
+# C17.5 the search skeleton
+
+SEARCH = r"^skipfree::SkipList::find_(greater_or_equal|greater_or_equal_and_pointers|less_than|last)$"
+CMP_CALL = re.compile(r"PartialOrd.*::(lt|le|gt|ge)$|^core::cmp::(?:\w+::)*(lt|le|gt|ge)$")
+
+
+def _edge_truth(lab, srcs):
+    negs = sum(1 for x in srcs if x["k"] == "un" and x["op"] == "Not")
+    holds = (lab != "sw:0")
+    return (not holds) if negs % 2 else holds
+
+
+def _is_nodekey_of(f, op, node_locals):
+    """op derives from node_ptr::key(n) with n one of node_locals (user locals / params)."""
+    for s in P.origins(f, op):
+        if s["k"] == "call" and s["callee"].endswith("node_ptr::key"):
+            a = s["t"]["args"][0]
+            r = K.root_local(f, a)
+            if r in node_locals:
+                return True
+    return False
+
+
+def _is_param(f, op, i):
+    srcs = P.origins(f, op)
+    return any(s["k"] == "param" and s["i"] == i for s in srcs) and not any(s["k"] == "call" and s["callee"].endswith("node_ptr::key") for s in srcs)
+
+
+def _strictly_before(name, a_is_node, truth):
+    """Does `cmp(a, b) == truth` say  key(node) < key ?   (a_is_node: a is the node's key and b the target)."""
+    if a_is_node:
+        return (name == "lt" and truth) or (name == "ge" and not truth)
+    return (name == "gt" and truth) or (name == "le" and not truth)
+
+
+def after_node_fn_ok(g):
+    """key_is_after_node(key, node) answers true only for a non-null node whose key is strictly before `key`:
+    every definition of its result is the constant false, or the strict comparison, made on the non-null edge."""
+    d = P.defs(g).of(0)
+    if not d:
+        return False, "no result"
+    for pt, kind, payload in d:
+        if kind == "assign":
+            rv = payload["rv"]
+            if rv["r"] == "use" and rv["a"].get("k") == "const" and rv["a"]["c"].get("v") == 0:
+                continue
+            return False, "result assigned from %s" % rv["r"]
+        t = payload
+        m = CMP_CALL.search(callee_skey(t) or "")
+        if not m:
+            return False, "result is the value of %s" % P.short(callee_skey(t))
+        name = m.group(1) or m.group(2)
+        a_node = _is_nodekey_of(g, t["args"][0], {2}) and _is_param(g, t["args"][1], 1)
+        b_node = _is_nodekey_of(g, t["args"][1], {2}) and _is_param(g, t["args"][0], 1)
+        if not (a_node or b_node) or not _strictly_before(name, a_node, True):
+            return False, "the comparison is not key(node) < key"
+        nonnull = False
+        for bb, lab, srcs in K.guards(g, pt):
+            for s in srcs:
+                if s["k"] == "call" and s["callee"].endswith("::is_null") and K.root_local(g, s["t"]["args"][0]) == 2:
+                    if not _edge_truth(lab, srcs):
+                        nonnull = True
+        if not nonnull:
+            return False, "the node's key is read without the null test"
+    return True, "!node.is_null() && key(node) < key"
+
+
+def advance_guard(ctx, f, pt, nexts, key_param):
+    """(non-null established, strictly-before established) for the node in `nexts` on every path to pt."""
+    nonnull = before = False
+    for bb, lab, srcs in K.guards(f, pt):
+        truth = _edge_truth(lab, srcs)
+        for s in srcs:
+            if s["k"] != "call":
+                continue
+            ck = s["callee"]
+            t = s["t"]
+            if ck.endswith("::is_null") and K.root_local(f, t["args"][0]) in nexts and not truth:
+                nonnull = True
+            elif ck.endswith("::key_is_after_node") and truth and K.root_local(f, t["args"][1]) in nexts and \
+                    (key_param is None or _is_param(f, t["args"][0], key_param)):
+                g = ctx.prog.fns.get(ctx.prog.targets(t)[0]) if ctx.prog.targets(t) else None
+                ok, _why = after_node_fn_ok(g) if g else (False, "")
+                if ok:
+                    nonnull = before = True
+            else:
+                m = CMP_CALL.search(ck)
+                if m and key_param is not None:
+                    name = m.group(1) or m.group(2)
+                    a_node = _is_nodekey_of(f, t["args"][0], nexts) and _is_param(f, t["args"][1], key_param)
+                    b_node = _is_nodekey_of(f, t["args"][1], nexts) and _is_param(f, t["args"][0], key_param)
+                    if (a_node or b_node) and _strictly_before(name, a_node, truth):
+                        before = True
+    return nonnull, before
+
+
+def zero_guard(f, pt, level):
+    """What the switch edges dominating pt say about the level variable: {'zero'} / {'nonzero'} (or both / neither).
+    Understands `level == 0`, `level != 0`, `0 == level` and a `match level { 0 => .., _ => .. }` switch on the variable."""
+    out = set()
+    for g in K.compare_guards(f, pt):
+        if g["op"] not in ("Eq", "Ne"):
+            continue
+        a, b = g["a"], g["b"]
+        if a.get("k") == "const":
+            a, b = b, a
+        if K.root_local(f, a) == level and b.get("k") == "const" and b["c"].get("v") == 0:
+            out.add("zero" if (g["op"] == "Eq") == g["holds"] else "nonzero")
+    for bb, lab in P.guards_of(f, pt):
+        d = f.blocks[bb].term["discr"]
+        if d.get("k") in ("copy", "move") and K.root_local(f, d) == level and "usize" in f.locals[d["pl"]["l"]]:
+            arms = [v for v, _ in f.blocks[bb].term["arms"]]
+            if lab == "sw:0":
+                out.add("zero")
+            elif arms == [0] or (lab in ("otherwise", "sw:1") and 0 in arms):
+                out.add("nonzero")
+    return out
+
+
+def _writes_to(f, l):
+    return [(b.idx, i) for b in f.blocks for i, st in enumerate(b.st) if st["s"] == "=" and not st["lhs"]["p"] and st["lhs"]["l"] == l] + \
+           [P.term_pt(f, b.idx) for b, t in f.calls() if not t["dest"]["p"] and t["dest"]["l"] == l]
+
+
+def _in_cycle(f, pt):
+    return P.reach(f, P.after(f, pt), [pt]) is not None
+
+
+def c175(ctx):
+    R = "C17.5"
+    ctx.declare(R, "a skiplist search starts at the top level, descends one level at a time, moves right only onto a node strictly "
+                   "before the key and answers only from level 0")
+    fs = sorted((f for f in ctx.prog.fns.values() if f.crate == "skipfree" and re.search(SEARCH, f.skey)), key=lambda f: f.skey)
+    ctx.floor(R, "skiplist search functions", len(fs), 4)
+    kf = [f for f in ctx.prog.fns.values() if f.skey == "skipfree::SkipList::key_is_after_node"]
+    for g in kf:
+        ok, why = after_node_fn_ok(g)
+        ctx.check(R, g, "after-node", ok, "key_is_after_node is %s" % why, "key_is_after_node does not mean `non-null and strictly before the key`: %s" % why)
+    for f in fs:
+        keyed = not f.skey.endswith("find_last")
+        gn = ctx.calls(R, f, r"skipfree::node_ptr::get_next$")
+        if not gn:
+            continue
+        lv, xs, nexts = set(), set(), set()
+        for p in gn:
+            t = P.term_at(f, p)
+            lv.add(K.root_local(f, t["args"][1]))
+            xs.add(K.root_local(f, t["args"][0]))
+            if not t["dest"]["p"]:
+                nexts.add(t["dest"]["l"])
+        if not ctx.check(R, f, "one-walk", len(lv) == 1 and len(xs) == 1 and None not in lv | xs,
+                         "every get_next reads the successor of the one walk variable at the one level variable", "get_next is not called as get_next(x, level) on one pair of variables", pt=gn[0]):
+            continue
+        level, x = lv.pop(), xs.pop()
+        # every round of the walk re-reads the successor
+        for p in gn:
+            pass
+        # (a) level: one initialisation MAX_HEIGHT - 1 outside the loop, decrements by one on the `level != 0` edge
+        lw = _writes_to(f, level)
+        init = [p for p in lw if not _in_cycle(f, p)]
+        decs = [p for p in lw if _in_cycle(f, p)]
+        ctx.floor(R, "%s level writes" % f.skey, len(init) * 10 + len(decs), 11)
+        for p in lw:
+            srcs, _ = P.value_slice(f, {"k": "copy", "pl": {"l": level, "p": []}})
+        for p in init + decs:
+            st = f.blocks[p[0]].st[p[1]] if p[1] < len(f.blocks[p[0]].st) else None
+            ok = False
+            why = "not a subtraction of one"
+            if st is not None and st["rv"]["r"] == "use":
+                for s in P.origins(f, st["rv"]["a"], through_calls=P._Opt(True, False)):
+                    if s["k"] == "bin" and s["op"].startswith("Sub"):
+                        rv = s["st"]["rv"]
+                        one = rv["b"].get("k") == "const" and rv["b"]["c"].get("v") == 1
+                        if p in init:
+                            top = rv["a"].get("k") == "const" and "v" not in rv["a"]["c"] and "usize" in str(rv["a"]["c"].get("ty", "usize"))
+                            ok = one and top
+                            why = "MAX_HEIGHT - 1" if ok else "the first level is not MAX_HEIGHT - 1"
+                        else:
+                            same = K.root_local(f, rv["a"]) == level
+                            ok = one and same
+                            why = "level - 1" if ok else "the level is not lowered by exactly one"
+            if p in decs and ok:
+                ok = "nonzero" in zero_guard(f, p, level)
+                why = "level - 1 on the `level != 0` edge" if ok else "the level is lowered without the `level != 0` test"
+            ctx.check(R, f, "level-step", ok, "%s (%s)" % ("the walk starts at the top level" if p in init else "the walk goes down one level at a time", why),
+                      "%s: %s" % (f.skey.rsplit("::", 1)[-1], why), pt=p)
+        # (b) an answer only from level 0
+        for p in P.return_points(f):
+            zero = "zero" in zero_guard(f, p, level)
+            ctx.check(R, f, "answer-at-level-0", zero, "the search answers only on the `level == 0` edge",
+                      "%s can answer from a level above 0: nodes that are only linked lower down are skipped" % f.skey.rsplit("::", 1)[-1], pt=p)
+        # (c) the walk moves right only onto a non-null node strictly before the key
+        xw = [p for p in _writes_to(f, x) if _in_cycle(f, p)]
+        ctx.floor(R, "%s moves right" % f.skey, len(xw), 1)
+        for p in xw:
+            st = f.blocks[p[0]].st[p[1]] if p[1] < len(f.blocks[p[0]].st) else None
+            from_next = st is not None and st["rv"]["r"] == "use" and K.root_local(f, st["rv"]["a"]) in nexts
+            nn, before = advance_guard(ctx, f, p, nexts, 2 if keyed else None)
+            ok = from_next and nn and (before or not keyed)
+            ctx.check(R, f, "moves-right", ok, "x = next only where next is non-null%s" % (" and key(next) < key" if keyed else ""),
+                      "%s moves right %s" % (f.skey.rsplit("::", 1)[-1], "onto something other than the successor just read" if not from_next else
+                                              "without the null test" if not nn else "onto a node that is not strictly before the key"), pt=p)
+        # every round re-reads the successor at the current level: no cycle avoids get_next
+        hd = gn[0]
+        cyc = None
+        for p in xw + decs:
+            q = P.reach(f, P.after(f, p), [p], avoid=set(gn))
+            if q is not None:
+                cyc = (p, q)
+        ctx.check(R, f, "re-read", cyc is None, "every round of the walk calls get_next(x, level) again", "a round of the walk reuses a stale successor",
+                  pt=cyc[0] if cyc else hd)
+        # (d) the pointer-collecting variant records (x, next) for the level it is about to leave
+        if f.skey.endswith("_and_pointers"):
+            stores = {}
+            for b, t in f.calls():
+                if not re.search(r"IndexMut.*::index_mut$", callee_skey(t) or ""):
+                    continue
+                vec = K.ref_base(f, t["args"][0])
+                idx = K.root_local(f, t["args"][1])
+                d = t["dest"]["l"]
+                for b2 in f.blocks:
+                    for i, st in enumerate(b2.st):
+                        if st["s"] == "=" and st["lhs"]["l"] == d and st["lhs"]["p"] == ["*"] and st["rv"]["r"] == "use":
+                            stores.setdefault(vec, []).append(((b2.idx, i), idx, K.root_local(f, st["rv"]["a"])))
+            # which vectors are returned, in which position
+            ret = None
+            for pt_, kind, payload in P.defs(f).of(0):
+                if kind == "assign" and payload["rv"]["r"] == "agg" and payload["rv"].get("tuple"):
+                    ret = [K.root_local(f, o) for o in payload["rv"]["ops"]]
+            ok_shape = ret is not None and len(ret) == 3
+            ctx.check(R, f, "returns-triple", ok_shape, "the result is (found, prev, obs)", "the result is not a triple")
+            if ok_shape:
+                for pos, want, label in ((1, {x}, "prev[level] = x"), (2, nexts, "obs[level] = next")):
+                    vec = ret[pos]
+                    # moves `_48 = move prev` : follow one copy
+                    good = [s for s in stores.get(vec, []) if s[1] == level and s[2] in want]
+                    ctx.check(R, f, "records:" + label, bool(good), "%s is stored at the current level" % label,
+                              "element %d of the result never receives %s" % (pos, label))
+                    if good:
+                        thru = [s[0] for s in good]
+                        goals = decs + P.return_points(f)
+                        q = P.reach(f, [a for p in gn for a in P.after(f, p)], goals, avoid=set(thru) | set(xw))
+                        ctx.check(R, f, "records-every-level:" + label, q is None, "%s on every path that leaves a level" % label,
+                                  "a level is left without %s: insert then links the new node after a stale predecessor" % label,
+                                  pt=q[-1][1] if q else None, path=q)
+    # (e) decision and answer come from one load: in a keyed search the node handed back is the very successor the
+    # comparison with the key examined, never a second read of the same link (an insert can land between two reads)
+    ne = 0
+    for f in sorted(ctx.prog.fns.values(), key=lambda f: f.skey):
+        if f.crate != "skipfree" or "::node_ptr::" in f.skey or f.kind == "Closure":
+            continue
+        if not any(f.locals[i] == "&K" for i in range(1, f.argc + 1)):
+            continue
+        loads = {t["dest"]["l"]: P.term_pt(f, b.idx) for b, t in f.calls()
+                 if re.search(r"node_ptr::get_next$|Atomic.*::load$", callee_skey(t) or "") and not t["dest"]["p"]}
+        sinks = []   # (point, operand or None when the sink is the call's own destination, label)
+        targets = [0] if f.locals[0].startswith("*mut skipfree::Node") else []
+        if f.locals[0].startswith("(*mut skipfree::Node"):
+            for _pt, kind, payload in P.defs(f).of(0):
+                if kind == "assign" and payload["rv"]["r"] == "agg" and payload["rv"].get("tuple"):
+                    r0 = K.root_local(f, payload["rv"]["ops"][0])
+                    if r0 is not None:
+                        targets.append(r0)
+        for tl in targets:
+            for pt_, kind, payload in P.defs(f).of(tl):
+                if kind == "assign" and payload["rv"]["r"] == "use":
+                    sinks.append((pt_, payload["rv"]["a"], "the result"))
+                elif kind == "call":
+                    sinks.append((pt_, None, "the result"))
+        for pt_ in P.field_writes(f, r"skipfree::SkipListIterator", "node"):
+            b_, i_ = pt_
+            if i_ < len(f.blocks[b_].st):
+                st = f.blocks[b_].st[i_]
+                if st["rv"]["r"] == "use":
+                    sinks.append((pt_, st["rv"]["a"], "the iterator position"))
+            else:
+                sinks.append((pt_, None, "the iterator position"))
+        for pt_, op, label in sinks:
+            if op is None:
+                t = P.term_at(f, pt_)
+                fresh = bool(re.search(r"node_ptr::get_next$", callee_skey(t) or ""))
+                ne += 1
+                ctx.check(R, f, "answer-is-the-compared-node", not fresh, "%s comes from a search, not from a fresh read of a link" % label,
+                          "%s of %s is a fresh get_next that no comparison with the key examined: the decision was taken on an earlier read of "
+                          "the same link, and an insert can land between the two reads" % (label, f.skey.rsplit("::", 1)[-1]), pt=pt_)
+                continue
+            r = K.root_local(f, op)
+            if r in loads and re.search(r"get_next$", callee_skey(P.term_at(f, loads[r])) or ""):
+                nn, before = advance_guard(ctx, f, pt_, {r}, 2 if f.locals[2] == "&K" else (1 if f.locals[1] == "&K" else None))
+                tested = nn or before or any(
+                    s_["k"] == "call" and (s_["callee"].endswith("::is_null") or s_["callee"].endswith("::key_is_after_node")) and
+                    r in {K.root_local(f, a_) for a_ in s_["t"]["args"]}
+                    for _bb, _lab, srcs_ in K.guards(f, pt_) for s_ in srcs_)
+                ne += 1
+                ctx.check(R, f, "answer-is-the-compared-node", tested, "%s is the successor the deciding comparison examined" % label,
+                          "%s of %s is a link value no dominating comparison examined" % (label, f.skey.rsplit("::", 1)[-1]), pt=pt_)
+    ctx.floor(R, "keyed searches answering with an examined successor", ne, 2)
+    # the iterator steps along level 0, where every node is linked
+    n0 = 0
+    for f in sorted(ctx.prog.fns.values(), key=lambda f: f.skey):
+        if f.crate != "skipfree" or not re.search(r"^skipfree::SkipListIterator::(next|seek_to_first)$|skipfree::Head.*::drop$", f.skey):
+            continue
+        for p in P.call_points(f, r"skipfree::node_ptr::get_next$"):
+            n0 += 1
+            cs = P.origin_consts(f, P.term_at(f, p)["args"][1])
+            ctx.check(R, f, "level-0-step", len(cs) == 1 and cs[0].get("v") == 0 and len(P.origins(f, P.term_at(f, p)["args"][1])) == 1,
+                      "steps along level 0", "%s follows a level other than 0: elements linked only at level 0 are skipped" % f.skey, pt=p)
+    ctx.floor(R, "level-0 steps (next, seek_to_first, drop)", n0, 3)
